@@ -11,4 +11,4 @@ flock 9
 cd "$H/harness"
 cargo build --release --offline --target-dir "$H/target/harness" 2>&1
 cd "$REPO"
-cargo build --release --offline --features verif_hooks --target-dir "$H/target/cli" --config 'profile.release.overflow-checks=true' 2>&1
+cargo build --release --offline --features verif_hooks --target-dir "$H/target/cli" --config 'profile.release.overflow-checks=true' --config 'profile.release.package.emulator_8086.debug-assertions=true' 2>&1
